@@ -122,6 +122,11 @@ type area struct {
 	eqs     map[string]string              // further types compared with == : Go type -> boolean equality
 	shadow  bool                           // `:=` in a nested scope may shadow a name that is never assigned with `=`
 	wderefs map[string]wderef              // pointers to a slice kept in the world: *p reads it, *p = append(*p, x) extends it
+	mapvals map[string]string              // pseudo map types: Go type of the values (comma-ok lookups)
+	refmaps map[string]string              // types of REFERENCES to world maps (a map passed as an argument): m[k] = v -> (coq m k v w)
+	wlooks  map[string]string              // "<receiver type>.<path>" or "<...>.<method>()": v, ok := g.m[k] -> (coq k w) : V * bool
+	ltypes  map[string]string              // "<function>.<local>": Go type a `var x T` is translated at
+	muts    map[string]string              // f(x) that changes the slice variable x in place (sort.Strings): let x := coq x
 	pairmaps map[string][2]string          // map types kept as the list of (key, value) pairs in iteration order: Go types of key and value
 	ifaces  map[string]string              // interface type of a variable -> the (world-backed) struct type whose translated methods it is called with
 	fatals  map[string]bool                // calls that end the process: the function stops with Panicked (PErrorf <format> 0)
@@ -804,7 +809,7 @@ func (t *translator) typeOf(e ast.Expr, ev *env) string {
 		unsup(x, "literal %s", x.Value)
 	case *ast.SliceExpr:
 		xt := t.typeOf(x.X, ev)
-		if !isStr(xt) || x.Slice3 {
+		if (!isStr(xt) && !strings.HasPrefix(xt, "[]")) || x.Slice3 {
 			unsup(x, "slice expression on a %s", xt)
 		}
 		return xt
@@ -1479,6 +1484,9 @@ func (t *translator) exprK(e ast.Expr, ev *env, want string, k func(string) stri
 			}
 			hi := func(k2 func(string) string) string {
 				if sl.High == nil {
+					if !isStr(t.typeOf(sl.X, ev)) {
+						return k2("(Z.of_nat (List.length " + xs + "))")
+					}
 					return k2("(str_len " + xs + ")")
 				}
 				return t.exprK(sl.High, ev, "int", k2)
@@ -1486,6 +1494,9 @@ func (t *translator) exprK(e ast.Expr, ev *env, want string, k func(string) stri
 			return lo(func(l string) string {
 				return hi(func(h string) string {
 					d := t.fresh("s")
+					if !isStr(t.typeOf(sl.X, ev)) {
+						return "(match list_slice " + xs + " " + l + " " + h + " with None => (Panicked PIndex, w) | Some " + d + " => " + k(d) + " end)"
+					}
 					return "(match str_slice " + xs + " " + l + " " + h + " with None => (Panicked PIndex, w) | Some " + d + " => " + k(d) + " end)"
 				})
 			})
@@ -1636,7 +1647,10 @@ func assigned(stmts []ast.Stmt, ev *env) []*variable {
 				switch lh := l.(type) {
 				case *ast.IndexExpr:
 					if id, ok := lh.X.(*ast.Ident); ok {
-						set[id.Name] = true
+						// m[k] = v through a REFERENCE to a world map changes the world, not the variable
+						if v, isVar := ev.index[id.Name]; !(isVar && curArea != nil && curArea.refmaps[v.typ] != "") {
+							set[id.Name] = true
+						}
 					}
 				case *ast.SelectorExpr:
 					if id, ok := lh.X.(*ast.Ident); ok {
@@ -1656,6 +1670,11 @@ func assigned(stmts []ast.Stmt, ev *env) []*variable {
 				set[id.Name] = true
 			}
 		case *ast.ExprStmt:
+			if c, ok := s.X.(*ast.CallExpr); ok && len(c.Args) == 1 && curArea != nil && curArea.muts[exprKey(c.Fun)] != "" {
+				if id, isId := c.Args[0].(*ast.Ident); isId {
+					set[id.Name] = true
+				}
+			}
 			// f(x): a function value may write through x
 			if c, ok := s.X.(*ast.CallExpr); ok && len(c.Args) == 1 {
 				if f, isVar := c.Fun.(*ast.Ident); isVar && ev.index[f.Name] != nil {
@@ -1755,8 +1774,12 @@ func (t *translator) block(stmts []ast.Stmt, ev *env, lc *loopCtx, top bool, k f
 			if vs.Type == nil {
 				unsup(vs, "var without a type")
 			}
-			typ := typeString(vs.Type)
+			declaredT := typeString(vs.Type)
 			for i, n := range vs.Names {
+				typ := declaredT
+				if o, isO := t.a.ltypes[t.fn+"."+n.Name]; isO {
+					typ = o
+				}
 				name := checkName(n)
 				if _, dup := e2.index[name]; dup {
 					unsup(n, "variable %s shadows another one", name)
@@ -1807,6 +1830,13 @@ func (t *translator) block(stmts []ast.Stmt, ev *env, lc *loopCtx, top bool, k f
 				unsup(c.Fun, "function value expression that can panic")
 			}
 			return "(let " + arg.Name + " := " + cl.coq + " " + t.pure(c.Fun, ev, "") + " " + arg.Name + " in\n" + cont(ev) + ")"
+		}
+		if mfn, isMut := t.a.muts[exprKey(c.Fun)]; isMut && len(c.Args) == 1 {
+			arg, isId := c.Args[0].(*ast.Ident)
+			if !isId || ev.index[arg.Name] == nil {
+				unsup(c, "%s applied to something that is not a variable", exprKey(c.Fun))
+			}
+			return "(let " + arg.Name + " := " + mfn + " " + arg.Name + " in\n" + cont(ev) + ")"
 		}
 		if t.a.fatals[exprKey(c.Fun)] {
 			lit, isLit := ast.Expr(nil), false
@@ -1920,7 +1950,7 @@ func (t *translator) block(stmts []ast.Stmt, ev *env, lc *loopCtx, top bool, k f
 		return cont(ev)
 	case *ast.ForStmt:
 		if !top || lc != nil {
-			unsup(x, "loop that is not at the top level of the function body")
+			return t.innerFor(x, ev, cont)
 		}
 		return t.forStmt(x, rest, ev, k)
 	case *ast.RangeStmt:
@@ -2011,7 +2041,7 @@ func (t *translator) assign(x *ast.AssignStmt, ev *env, cont func(*env) string) 
 	if x.Tok == token.ASSIGN && len(x.Lhs) == 1 && len(x.Rhs) == 1 {
 		if sel, ok := x.Lhs[0].(*ast.SelectorExpr); ok {
 			if pk := t.pathKey(sel, ev); pk != "" && t.a.wsets[pk] != "" {
-				return t.worldAssign(x, t.a.wsets[pk], t.typeOf(sel, ev), ev, cont)
+				return t.worldAssign(x, t.a.wsets[pk], t.typeOfSafe(sel, ev), ev, cont)
 			}
 			id, isId := sel.X.(*ast.Ident)
 			if !isId {
@@ -2096,6 +2126,12 @@ func (t *translator) assign(x *ast.AssignStmt, ev *env, cont func(*env) string) 
 			gid, isId := ix.X.(*ast.Ident)
 			if !isId {
 				unsup(ix, "assignment to an element of something that is not a variable")
+			}
+			if lv, isLocal := ev.index[gid.Name]; isLocal && t.a.refmaps[lv.typ] != "" {
+				if t.mayPanic(ix.Index, ev) || t.mayPanic(x.Rhs[0], ev) {
+					unsup(x, "map assignment whose key or value can panic")
+				}
+				return "(let w := " + t.a.refmaps[lv.typ] + " " + gid.Name + " " + t.pure(ix.Index, ev, "") + " " + t.pure(x.Rhs[0], ev, "") + " w in\n" + cont(ev) + ")"
 			}
 			if lv, isLocal := ev.index[gid.Name]; isLocal {
 				// xs[i] = e on a local slice: index, then value, then the bounds check
@@ -2200,6 +2236,26 @@ func (t *translator) assign(x *ast.AssignStmt, ev *env, cont func(*env) string) 
 				}
 			}
 		}
+		// v, ok := g.m[k] / g.f()[k]  on a map of the world
+		if ix, ok := x.Rhs[0].(*ast.IndexExpr); ok {
+			if wk := t.worldMapKey(ix.X, ev); wk != "" {
+				look, known := t.a.wlooks[wk]
+				if !known {
+					unsup(ix, "comma-ok index on %s (not in the lookup table of area %s)", wk, t.a.name)
+				}
+				if t.mayPanic(ix.Index, ev) {
+					unsup(ix, "map key that can panic")
+				}
+				vt := t.a.mapvals[wk]
+				e2 := ev
+				if define {
+					e2 = ev.clone()
+					declare(e2, lhs[0], vt)
+					declare(e2, lhs[1], "bool")
+				}
+				return "(let '(" + lhs[0] + ", " + lhs[1] + ") := " + look + " " + t.pure(ix.Index, ev, "") + " w in\n" + cont(e2) + ")"
+			}
+		}
 		// v, ok := m[k]  on a local map
 		if ix, ok := x.Rhs[0].(*ast.IndexExpr); ok {
 			if mid, isId := ix.X.(*ast.Ident); isId {
@@ -2212,6 +2268,9 @@ func (t *translator) assign(x *ast.AssignStmt, ev *env, cont func(*env) string) 
 						unsup(ix, "map key that can panic")
 					}
 					vt := mv.typ[strings.Index(mv.typ, "]")+1:]
+					if pv, isPseudo := t.a.mapvals[mv.typ]; isPseudo {
+						vt = pv
+					}
 					e2 := ev
 					if define {
 						e2 = ev.clone()
@@ -2588,7 +2647,13 @@ func (t *translator) rangeStmt(x *ast.RangeStmt, rest []ast.Stmt, ev *env, k fun
 			locals = append(locals, v)
 		}
 	}
-	fixed := append(append([]*variable{}, t.pars...), locals...)
+	var fixed []*variable
+	for _, v := range t.pars {
+		if !isCarried[v.name] {
+			fixed = append(fixed, v)
+		}
+	}
+	fixed = append(fixed, locals...)
 	saveJ := t.nJoin
 	defersHere := t.defers // a return in the loop body runs the deferred calls registered before the loop only
 	afterBody := t.block(rest, ev, nil, true, k)
@@ -2654,6 +2719,12 @@ func (t *translator) forStmt(x *ast.ForStmt, rest []ast.Stmt, ev *env, k func(*e
 	if x.Init == nil && x.Post == nil && x.Cond != nil {
 		return t.whileStmt(x, rest, ev, k)
 	}
+	l, carried := t.counterLoop(x, ev)
+	return t.fuelLoop(l, carried, rest, ev, k)
+}
+
+// the counter loop `for i := lo; i <op> hi; i++ / i--`: its description and the variables its body assigns
+func (t *translator) counterLoop(x *ast.ForStmt, ev *env) (*fuelLoop, []*variable) {
 	init, ok := x.Init.(*ast.AssignStmt)
 	if !ok || init.Tok != token.DEFINE || len(init.Lhs) != 1 || len(init.Rhs) != 1 {
 		unsup(x, "loop without a counter initialised by `i := e`")
@@ -2747,8 +2818,7 @@ func (t *translator) forStmt(x *ast.ForStmt, rest []ast.Stmt, ev *env, k func(*e
 	if bodyAssign[cname] {
 		unsup(x, "loop body assigns the counter %s", cname)
 	}
-	return t.fuelLoop(&fuelLoop{node: x, counter: cname, lo: lo, step: step, fuel: fuel, condE: x.Cond, body: x.Body.List},
-		carried, rest, ev, k)
+	return &fuelLoop{node: x, counter: cname, lo: lo, step: step, fuel: fuel, condE: x.Cond, body: x.Body.List}, carried
 }
 
 // a loop translated to recursion on fuel
@@ -3169,6 +3239,11 @@ func (t *translator) function(fd *ast.FuncDecl, spec fnSpec) {
 					t.reassigned[id.Name] = true
 				}
 			case *ast.ExprStmt:
+				if c, isCall := a.X.(*ast.CallExpr); isCall && len(c.Args) == 1 && t.a.muts[exprKey(c.Fun)] != "" {
+					if id, isId := c.Args[0].(*ast.Ident); isId {
+						t.reassigned[id.Name] = true
+					}
+				}
 				if c, isCall := a.X.(*ast.CallExpr); isCall && len(c.Args) == 1 {
 					if _, isVar := c.Fun.(*ast.Ident); isVar {
 						if id, isId := c.Args[0].(*ast.Ident); isId {
@@ -3274,7 +3349,11 @@ func main() {
 			f, seen := files[fs.file]
 			if !seen {
 				var err error
-				f, err = parser.ParseFile(fset, filepath.Join(*repo, fs.file), nil, parser.SkipObjectResolution)
+				mode := parser.SkipObjectResolution
+				if a.shadow {
+					mode = 0 // identifiers resolved to their declarations: renameShadows needs them
+				}
+				f, err = parser.ParseFile(fset, filepath.Join(*repo, fs.file), nil, mode)
 				if err != nil {
 					fmt.Fprintf(os.Stderr, "go2gallina: %v\n", err)
 					code = 1
@@ -3332,6 +3411,9 @@ func main() {
 				unsup(nil, "function %s not found in %s", fs.name, fs.file)
 			}
 			t.dir = filepath.Dir(filepath.Join(*repo, fs.file))
+			if a.shadow {
+				renameShadows(fd)
+			}
 			t.function(fd, fs)
 			t.auditFresh(fd.Name.Name)
 			done = append(done, fs.name)
